@@ -196,8 +196,14 @@ class GradOracle:
                 lib = float(self.h.sim_gemini.real.evaluate(P, Ab))
                 refv = ref_gemini(self.spec[0], self.spec[1], P, Ab)
                 if abs(lib - refv) > 1e-5 * max(abs(refv), abs(lib)) + 1e-13:
-                    res.probe("steps_skipped_library_score_ill_conditioned")
-                    return
+                    # ... but only where conditioning can explain it: some cluster holds (almost) no mass.  A score that is
+                    # wrong in a well-conditioned state does not excuse the direction: the step is judged against the
+                    # reference objective as usual.
+                    mass = float(np.min(np.mean(np.asarray(P, dtype=np.float64), axis=0)))
+                    if mass < 1e-3:
+                        res.probe("steps_skipped_library_score_ill_conditioned")
+                        return
+                    res.probe("steps_judged_although_library_score_differs")
             except Exception:
                 res.probe("steps_skipped_score_crosscheck_failed")
                 return
